@@ -83,6 +83,11 @@ func (f *Fact) Join(a string, b string) string { f.on("Join", a, b); return Join
 func (f *Fact) Level() int64  { f.on("Level"); return f.I }
 func (f *Fact) Label() string { f.on("Label"); return f.S }
 
+// Methods that always panic (natural faults of C14): with a string value and with an error value.
+
+func (f *Fact) Boom(x int64) int64    { f.on("Boom", x); panic("boom") }
+func (f *Fact) BoomErr(x int64) int64 { f.on("BoomErr", x); panic(fmt.Errorf("boom error %d", x)) }
+
 // Documented-protocol mutators: a rule that calls one announces the change with Changed/Forget.
 
 func (f *Fact) SetI(v int64) { f.on("SetI", v); f.I = v }
